@@ -19,6 +19,45 @@ _MC = ("TLC explores the bounded %s specification exhaustively (design check of 
        "real bio-rd objects with the complete projected state compared after each step")
 
 CHECKS = {
+    "C08": {
+        "text": _MC % "RibOut" + " (invariant OutIsExportView: per prefix the Adj-RIB-Out holds the export, with the session's rewrites, "
+                "of the first N paths of the Loc-RIB selection that export rules and export policy admit; empty while the session is "
+                "down). Real objects: locRIB.LocRIB + adjRIBOut.New registered with the session's add-path option + a recording "
+                "client standing in for the update sender; compared after every step: dump per prefix (wire-visible attributes), route "
+                "count, identifiers, and what the client was told keyed as a peer keys it.",
+        "note": "Trusted: TLC, Policy!Eval (C14) and DecisionDefs!Cmp (C02/C03) as bound elsewhere, the wire projection. ORIGINATOR_ID/"
+                "CLUSTER_LIST of eBGP-learned routes sent to RR clients are not compared (not prescribed). One known finding (add-path "
+                "over-withdrawal pinned by the repository's own test).",
+        "technique": "TLA+ spec RibOut + TLC exhaustive check; behaviour replay against locRIB/adjRIBOut",
+    },
+    "C09": {
+        "text": "RibOut's RFC constraints (NeverNoAdvertise, NeverNoExportToEBGP, never back to the source, NoIBGPToNonClient, OTC egress, "
+                "EBGPPrependsAndNextHopSelf, ReflectedCarryOriginatorAndCluster) are invariants TLC checks on every reachable "
+                "Adj-RIB-Out of the graph over all 10 path kinds x 11 target sessions; every (path, session) combination and every "
+                "ordered pair is replayed and the real Adj-RIB-Out must hold exactly the expected wire-visible attributes.",
+        "note": "Trusted: as C08. The LOCAL_PREF-only-to-iBGP and OTC-on-the-wire clauses need the serialised UPDATE and are bound by "
+                "the wire-level replay (Wire spec) when present in this revision; table level only otherwise.",
+        "technique": "TLA+ spec RibOut (RFC constraints as invariants) + TLC; behaviour replay against adjRIBOut",
+    },
+    "C11": {
+        "text": _MC % "RibOut" + " on add-path sessions over 2 prefixes x 3 paths to depth 6-7 so identifiers are shared across prefixes, "
+                "released in every order and re-allocated; the adapter requires distinct non-zero identifiers per prefix, that the "
+                "client's (prefix, identifier)-keyed view equals the Adj-RIB-Out (wrong identifier on a withdrawal = stale entry) and "
+                "that every expected path is present (allocation failure = missing).",
+        "note": "Trusted: as C08. Not covered: two paths that differ only in attributes outside the identifier hash (OTC, unknown "
+                "attributes) on one prefix - they tie in the decision process and the LocRIB domain excludes ties; the 2^32-1 bound "
+                "itself is not reached, only the accounting that leads to spurious exhaustion.",
+        "technique": "TLA+ spec RibOut + TLC; behaviour replay against adjRIBOut/pathIDManager",
+    },
+    "C13": {
+        "text": "RibOut behaviours are replayed on the full pipeline (one Adj-RIB-In per source peer -> Loc-RIB -> the session under test "
+                "and a second session's Adj-RIB-Out). After every step the Loc-RIB's stored paths are compared attribute for attribute "
+                "with what was announced; around every export-side operation (export policy replacement, session down/up) deep "
+                "snapshots of every Adj-RIB-In and of the other session's Adj-RIB-Out must be unchanged. In the value-based spec the "
+                "action property holds by construction; its force is the binding.",
+        "note": "Trusted: the full-attribute projection used for snapshots; pointer sharing that is never written through is invisible (and harmless).",
+        "technique": "TLA+ spec RibOut + TLC; behaviour replay with deep table snapshots against adjRIBIn/locRIB/adjRIBOut",
+    },
     "C05": {
         "text": _MC % "RibIn" + " (invariants MirrorsAdjRIBIn: every registered consumer holds exactly the contribution of the stored, "
                 "eligible announcements under the current import policy, an unregistered one nothing; OnePerKey). Real objects: "
